@@ -35,10 +35,6 @@ inductive DVal where
   | seq (items : DVals)
   | map (entries : DEntries)
   | enum (key : DVal) (payload : DVal)
-  /-- out of scope here: the string a temporal / decimal codec renders for the integer `v` (modelled with C14/C15) -/
-  | codec (v : Int)
-  /-- out of scope here: `f64 as f32` of the bit pattern (documented lossy narrowing) -/
-  | narrowed (bits64 : Int)
 deriving Repr, BEq, DecidableEq
 inductive DVals where
   | nil
